@@ -197,6 +197,34 @@ def run_case(rng, tier, case):
             vt = float(-np.dot(su.c, xt))
             case.check('split.value_attained_in_unsplit', abs(vt - v_split) <= tolv * (1 + abs(v_split)), nonvacuous=flowed and n_int >= 2, minus_c_unsplit_x_split=vt, split_value=v_split,
                        wacc=[a.get('wacc', 0) for a in spec['assets']])
+    one_step_vars = cls in ('uncoupled', 'storage') and not any(a.get('freq') or a.get('periodicity') or a['type'] == 'OrderBook' for a in spec['assets'])
+    if ru.solved and rs.solved and one_step_vars and rng.random() < 0.3:      # (only where every variable acts in ONE step: a variable is pinned if any of its steps is in the window)
+        # a window fixed to the previous solution (given as a date that IS a grid point) pins the same (asset, node, step) cells with and without the split
+        pts_ = gen.grid_points(spec['grid'])
+        dq = pts_[int(rng.integers(0, len(pts_)))]
+        dq = dq if rng.random() < 0.5 else dq.to_pydatetime()
+        def pinned_cells(split_):
+            r0 = ru if split_ is None else rs
+            rfx = flow.run_portfolio(spec, split=split_, do_optimize=False, fix_time_window={'I': dq, 'x': np.asarray(r0.res.x, float).copy()})
+            if not rfx.ok:
+                return None
+            ops0 = [r0.op] if split_ is None else r0.op.ops; ops1 = [rfx.op] if split_ is None else rfx.op.ops
+            l0 = np.concatenate([np.asarray(o.l, float) for o in ops0]); u0 = np.concatenate([np.asarray(o.u, float) for o in ops0])
+            l1 = np.concatenate([np.asarray(o.l, float) for o in ops1]); u1 = np.concatenate([np.asarray(o.u, float) for o in ops1])
+            if len(l0) != len(l1):
+                return None
+            newly = (l1 == u1) & ~((l0 == u0) & (l0 == l1))
+            m_ = rfx.op.mapping
+            idx_ = set(np.where(newly)[0].tolist())
+            return set((str(a_), str(n_), int(t_)) for i_, a_, n_, t_ in zip(m_.index, m_['asset'], m_['node'], m_['time_step']) if int(i_) in idx_)
+        try:
+            cu_, cs2_ = pinned_cells(None), pinned_cells(size)
+            if cu_ is not None and cs2_ is not None:
+                # (a variable whose previous value happens to sit on a bound that is already fixed is not "newly" pinned on either side)
+                steps_u = {c[2] for c in cu_}; steps_s = {c[2] for c in cs2_}
+                case.check('split.fixed_window_covers_same_steps', steps_u == steps_s, nonvacuous=bool(steps_u), date=str(dq), only_unsplit=sorted(steps_u - steps_s)[:5], only_split=sorted(steps_s - steps_u)[:5])
+        except Exception as e:
+            case.event('fixed_window_probe_failed:' + type(e).__name__)
     if ru.solved:
         v_un = float(ru.res.value)
         if cls == 'uncoupled':
